@@ -94,6 +94,11 @@ func VerifH_C02_fontread() {
 		case "name": // string storage (regular expressions over family name and version string)
 			so := int(data[off+4])<<8 | int(data[off+5])
 			excl = append(excl, [2]int{off + so, off + ln})
+			// ... and the length / offset fields of the name records, which select those strings
+			for r, n := 0, int(data[off+2])<<8|int(data[off+3]); r < n; r++ {
+				excl = append(excl, [2]int{off + 6 + 12*r + 8, off + 6 + 12*r + 12})
+			}
+			excl = append(excl, [2]int{off + 4, off + 6})
 		}
 	}
 	for _, x := range excl {
